@@ -232,6 +232,9 @@ type parseRow struct {
 	Obs     observation            `json:"obs"`
 	Obs2    observation            `json:"obs2"` // the printed module parsed again
 	Printed printed                `json:"printed"`
+	// the fields of the node under test may be written in any order (Modules.tla rows): want and obs list the
+	// operands of a specialised node sorted by field, and the printed token order is not prescribed
+	Unordered bool `json:"unordered,omitempty"`
 	// not part of the judged record
 	freeSites bool // the attachment sites of this text are not prescribed: only identity is judged there
 	text      string
@@ -459,6 +462,12 @@ func Run(tier, replay string) {
 	// the specialised node kinds
 	diRows, diInfo := specialisedRows(tier, rng)
 	rows = append(rows, diRows...)
+	// the debug-info families of Modules.tla: every field of every node kind alone, the listed pairs, all optional
+	// fields at once, in table order, reversed and inline -- the spec's construct table is the list of reference
+	// fields (law `field`: each reference sits in the struct field named like its keyword)
+	mrows := modulesDIRows(rep)
+	rows = append(rows, mrows...)
+	rep.Extra["di_modules_tla_rows"] = len(mrows)
 	for k, v := range diInfo {
 		rep.Extra[k] = v
 	}
@@ -639,7 +648,8 @@ func processParseRows(rep *mbt.Report, rows []*parseRow, canonEvery, off int) []
 	llvmoracle.Parallel(len(rows), func(i int) {
 		r := rows[i]
 		ok, diag := false, ""
-		out[i].doCanon = (i+off)%canonEvery == 0
+		// (what LLVM reads in the field VALUES of the Modules.tla rows is C01's question, with its findings; here: references)
+		out[i].doCanon = (i+off)%canonEvery == 0 && !rows[i].Unordered
 		if out[i].doCanon {
 			out[i].canonIn, ok, diag = llvmoracle.Canon(r.text)
 		} else {
@@ -682,6 +692,10 @@ func processParseRows(rep *mbt.Report, rows []*parseRow, canonEvery, off int) []
 			out[i].fail = &mbt.Failure{Signature: "C17|print|reparse-fails|" + tag, What: fmt.Sprintf("%s: the printed module cannot be parsed again: %s", r.name, mbt.Truncate(jr.ReparseError, 300)), Case: caseOf(r)}
 		default:
 			r.Obs, r.Obs2 = jr.Obs, jr.Obs2
+			if r.Unordered {
+				sortObsByField(&r.Obs)
+				sortObsByField(&r.Obs2)
+			}
 			if w, ok := r.Want.(map[string]interface{}); ok && r.freeSites {
 				w["sites"] = r.Obs.Sites
 			}
